@@ -291,6 +291,24 @@ def gen_writer(tier, rng):
     return out
 
 
+def ADV(ms):
+    return dict(op='adv', n=ms)
+
+
+def gen_patient_writer(tier, rng):
+    """a shared transport that takes its time over a write (back-pressure: 6 s, 12 s, 45 s, 3 min of virtual time): the
+    write waits, then goes out; nothing is given up, the key's writer lives on"""
+    out = []
+    for ms in (6000, 12000, 45000, 180000):
+        for nkeys in (1, 2):
+            steps = [IN('a', 't1'), LR('a'), IN('b', 't2'), LR('b'), STUCK(True), LW('a', 'w1')]
+            if nkeys == 2:
+                steps += [LW('b', 'u1')]
+            steps += [Q, ADV(ms), Q, STUCK(False), Q, LW('a', 'w2'), LW('b', 'u2'), Q]
+            out.append(_scen('raw/patient writer: the shared transport holds a write for %d ms, %d key(s)' % (ms, nkeys), 'raw', steps))
+    return out
+
+
 def REFUSE(n=1):
     return dict(op='refuse', n=n)
 
@@ -417,6 +435,7 @@ def generate(tier, rng):
     out += gen_stop_traffic(tier, rng)
     out += gen_writer(tier, rng)
     out += gen_refused(tier, rng)
+    out += gen_patient_writer(tier, rng)
     out += gen_rpc(tier, rng)
     if tier != 'thorough' and len(out) > 340:
         # keep the hand-written corner cases (they carry no pos=) and sample the rest evenly
